@@ -60,6 +60,9 @@ pub fn on_poll_begin(w: &mut World, id: NodeId) {
         if parent != NO_NODE && w.node(parent).fam == Family::RaceOk {
             w.flag("c07.repoll_failed", || format!("race_ok polled n{id} again after it had failed"));
         }
+        if parent != NO_NODE && w.node(parent).fam == Family::Chain {
+            w.flag("c10.back", || format!("chain went back to input n{id} after that input had returned None (evaluation must be strictly sequential)"));
+        }
         if parent != NO_NODE && matches!(w.node(parent).fam, Family::WaitUntilF | Family::WaitUntilS) {
             w.flag("c19.deadline_again", || format!("wait_until polled n{id} again after it completed"));
         }
